@@ -1,13 +1,15 @@
 // ---------- R8: stand-ins for dependency types ----------
 // rowan::TextRange / TextSize: the parser never branches on a range.
 #[derive(Clone, Copy)]
-pub struct TextRange { start: u32, end: u32 }
+pub struct TextRange { pub start: u32, pub end: u32 }
 #[derive(Clone, Copy)]
-pub struct TextSize { raw: u32 }
-#[verifier::external]
+pub struct TextSize { pub raw: u32 }
+impl vstd::std_specs::convert::FromSpecImpl<u32> for TextSize {
+    open spec fn obeys_from_spec() -> bool { true }
+    open spec fn from_spec(raw: u32) -> Self { TextSize { raw } }
+}
 impl From<u32> for TextSize { fn from(raw: u32) -> Self { TextSize { raw } } }
-#[verifier::external]
-impl TextRange { fn empty(at: TextSize) -> TextRange { TextRange { start: at.raw, end: at.raw } } }
+impl TextRange { fn empty(at: TextSize) -> (r: TextRange) ensures r == (TextRange { start: at.raw, end: at.raw }) { TextRange { start: at.raw, end: at.raw } } }
 
 // ---------- rowan's green-tree builder, as far as Parser::build_tree uses it (assumed contracts on a dependency) ----------
 // The builder is specified by the TRACE of calls made on it (ghost view); what rowan makes of a trace is assumption (iii):
